@@ -4,18 +4,20 @@ HOOKS = {
               "compile /repo's sources through symlinks)",
     "baseline_off_cmd": "cd /repo && cargo nextest run --workspace --no-fail-fast --tool-config-file "
                         "pb:/w/lib/nextest.toml --profile pb --test-threads 8 --offline",
-    "source_commits": ["e2ad724", "3a73802", "1c721a0", "41fe99d", "254b2fc", "88d9964"],
+    "source_commits": ["e2ad724", "3a73802", "1c721a0", "41fe99d", "254b2fc", "88d9964", "02f3736"],
     "add_only": True,
 }
 
 ENGINES = [
     {"name": "tlc", "path": "/verif/lib/vlib/tlc.py", "kind_free_text": "TLC 1.8 explicit-state model checker over spec/*.tla",
      "serves_properties": []},
-    {"name": "harness-agent", "path": "/verif/harness/agent", "serves_properties": ["C02", "C19", "C18", "C16"],
+    {"name": "harness-agent", "path": "/verif/harness/agent", "serves_properties": ["C01", "C02", "C03", "C05", "C11", "C15", "C16", "C18", "C19"],
      "kind_free_text": "cargo crate compiling /repo/proxy_agent/src through symlinks with the verif cfg; drivers: "
                        "function tables, proxy rig (real ProxyServer + mock hosts in a netns), disk, ..."},
     {"name": "harness-ebpf", "path": "/verif/harness/ebpf", "serves_properties": ["C06"],
      "kind_free_text": "gcc build of the unmodified eBPF C program against shim headers + Rust codec built from ebpf_obj.rs"},
+    {"name": "harness-sys", "path": "/verif/harness/sys", "serves_properties": ["C17"],
+     "kind_free_text": "mount-namespace wrapper (overlayfs), fake systemctl, stand-in agent; drives the real proxy_agent_setup"},
     {"name": "harness-ext", "path": "/verif/harness/ext", "serves_properties": ["C20"],
      "kind_free_text": "cargo crate compiling /repo/proxy_agent_extension/src through symlinks; replays TLC graphs"},
 ]
@@ -26,6 +28,54 @@ NOTES = ("Every check: bin/check <id> --tier quick|thorough. TLA+ specs in spec/
 NOT_APPLICABLE = {}
 
 CHECKS = {
+    "C01": {
+        "text": "TLC checks Mediation/StatusMap/NothingLeaks on three factored exhaustive configurations of Proxy.tla; every terminal scenario of the single-connection model (attribution x identity x destination x rule mode x fault x key x request shape, ~13k) is concretised with seeded random traffic and replayed on the real ProxyServer; every observed request (client status, whether and what the host received, stray bytes on the upstream connection) is validated by TLC against ProxyTrace's P_C01_* invariants, which recompute authorization from the recorded inputs with Authz!Result and Rbac!Decision.",
+        "note": 'Kernel audit map replaced by the cfg-guarded stand-in (hooks H1/H2); mock hosts in a private netns; one request per connection in this pipeline (keep-alive/reuse/concurrency: C07, C14); identity space = OS users root/daemon/bin/nobody and the harness process; rule documents are generated realisations of allow/deny, decided independently by Rbac.tla.',
+        "technique": "TLA+ spec (Proxy.tla/Authz.tla/Rbac.tla) + TLC model checking; TLC-generated scenarios replayed on the real ProxyServer; impl->spec trace validation of every observed request",
+        "design_ref": 'DESIGN.md §3 Proxy.tla',
+    },
+    "C03": {
+        "text": "Authz.tla's RootOnly/NoSelfProxy hold over its whole domain (TLC); the shared proxy pipeline replays every scenario with non-elevated callers to WireServer/HostGAPlugin under every rule mode and decision and with the proxy's own address as recorded destination; TLC validates P_C03_RootOnly / P_C03_NoSelfProxy on every observed request (not relayed, zero upstream bytes, 403).",
+        "note": 'Kernel audit map replaced by the cfg-guarded stand-in (hooks H1/H2); mock hosts in a private netns; one request per connection in this pipeline (keep-alive/reuse/concurrency: C07, C14); identity space = OS users root/daemon/bin/nobody and the harness process; rule documents are generated realisations of allow/deny, decided independently by Rbac.tla.',
+        "technique": "TLA+ spec (Proxy.tla/Authz.tla/Rbac.tla) + TLC model checking; TLC-generated scenarios replayed on the real ProxyServer; impl->spec trace validation of every observed request",
+        "design_ref": 'DESIGN.md §3 Proxy.tla',
+    },
+    "C05": {
+        "text": "Proxy.tla's OwnedHeaders invariant is model-checked; scenarios carry 0-3 client copies of each owned header in random letter case; the raw header list captured at the mock host is reduced to a census (count of claims/date/authorization headers, whether the value is the proxy's, client copies surviving) and TLC validates P_C05_OwnedHeaders on every relayed request.",
+        "note": 'Kernel audit map replaced by the cfg-guarded stand-in (hooks H1/H2); mock hosts in a private netns; one request per connection in this pipeline (keep-alive/reuse/concurrency: C07, C14); identity space = OS users root/daemon/bin/nobody and the harness process; rule documents are generated realisations of allow/deny, decided independently by Rbac.tla.',
+        "technique": "TLA+ spec (Proxy.tla/Authz.tla/Rbac.tla) + TLC model checking; TLC-generated scenarios replayed on the real ProxyServer; impl->spec trace validation of every observed request",
+        "design_ref": 'DESIGN.md §3 Proxy.tla',
+    },
+    "C11": {
+        "text": "Authz.tla EnforceBlocks/AuditForwards/DisabledIgnoresRules and Proxy.tla Modes/DenialCountedStep are model-checked; the pipeline replays every rule mode x decision x endpoint x caller; TLC validates P_C11_* on every observation: enforce+deny => 403, nothing relayed; audit+deny => relayed intact with the host's status; disabled => rules not consulted; each denial => failed-summary delta exactly 1 under the caller's user/process/command line/destination (read through the agent-status getter before and after the request).",
+        "note": 'Kernel audit map replaced by the cfg-guarded stand-in (hooks H1/H2); mock hosts in a private netns; one request per connection in this pipeline (keep-alive/reuse/concurrency: C07, C14); identity space = OS users root/daemon/bin/nobody and the harness process; rule documents are generated realisations of allow/deny, decided independently by Rbac.tla.',
+        "technique": "TLA+ spec (Proxy.tla/Authz.tla/Rbac.tla) + TLC model checking; TLC-generated scenarios replayed on the real ProxyServer; impl->spec trace validation of every observed request",
+        "design_ref": 'DESIGN.md §3 Proxy.tla',
+    },
+    "C15": {
+        "text": 'Proxy.tla BodyLimit is model-checked; scenarios place bodies at limit-1/limit/limit+1 and beyond for both limit classes, declared (Content-Length, including a lying declaration above 100 MiB) or chunked, on exempt URLs in random letter case and near-miss non-exempt URLs; TLC validates P_C15_OverRefused (4xx, nothing relayed, zero stray bytes) and P_C15_WithinRelayed (relayed with the whole body, hash compared) on every observation. 100 MiB chunked bodies are sampled in the thorough tier only.',
+        "note": 'Kernel audit map replaced by the cfg-guarded stand-in (hooks H1/H2); mock hosts in a private netns; one request per connection in this pipeline (keep-alive/reuse/concurrency: C07, C14); identity space = OS users root/daemon/bin/nobody and the harness process; rule documents are generated realisations of allow/deny, decided independently by Rbac.tla.',
+        "technique": "TLA+ spec (Proxy.tla/Authz.tla/Rbac.tla) + TLC model checking; TLC-generated scenarios replayed on the real ProxyServer; impl->spec trace validation of every observed request",
+        "design_ref": 'DESIGN.md §3 Proxy.tla',
+    },
+    "C16": {
+        "text": "Provision.tla models every actor message of update/reset/timeup/query and the file steps of write_provision_state; TLC checks FinishedOnlyAfter, Answer, ErrorTextExact, QueryTruth, TagAtomic exhaustively; TLC-generated schedules (including every counterexample class found on the original design) are replayed on the real code through the H5 schedule gates and the real HTTP /provision endpoint, and random gated runs plus strace-delayed file races are validated by TLC against the property-level trace spec.",
+        "note": "Schedules are forced with cfg-guarded gates at the entry of the provision actor's client calls; file-step interleavings rely on strace delay injection; no gate between get_state and the channel-state read.",
+        "technique": "TLA+ spec + TLC model checking; deterministic schedule replay through gates; impl->spec trace validation",
+        "design_ref": "DESIGN.md §3 Provision.tla",
+    },
+    "C17": {
+        "text": "Setup.tla models each setup command as the step sequence of the tool (stop, copies, unit, systemctl calls, backup deletion) with no bound on command sequences; TLC checks RoundTrip, StopBeforeReplace, InstallExact, RestoreNoBackupIsNoop, UninstallPackageRemoves, PurgeOnlyBackup, Frame on the whole graph; every generated behaviour (all 3-command sequences from all initial states plus a 4th command; thorough: all 4-command and sampled 5-command ones) is executed with the real release-built proxy_agent_setup in a private mount namespace (overlayfs over /etc,/usr,/var..., logging fake systemctl) comparing file hashes after every command, and the observations are validated by TLC against the trace spec.",
+        "note": "The fake systemctl always succeeds; ordering evidence comes from its call-time snapshots (strace on a seeded subset). Windows paths not covered.",
+        "technique": "TLA+ spec + TLC model checking; exhaustive spec->impl replay on the real binary; impl->spec trace validation",
+        "design_ref": "DESIGN.md §3 Setup.tla",
+    },
+    "C18": {
+        "text": "Telemetry.tla follows process_events_and_clean/send_events/send_data_to_wire_server; TLC checks AtMostOneBatch, BatchBounded, OversizeDropped, NotBlocked, FilesRemoved and Terminates (liveness, weak fairness, every failure pattern); generated file sets and failure patterns are replayed into the real EventReader against mock hosts on the real endpoints (paused clock), every POSTed body is parsed with an independent XML parser (expat), sizes/batch membership/text integrity recovered, and the observed batch sequence is validated by TLC against the trace spec.",
+        "note": "Envelope/per-event overhead calibrated from a real document; 'same batch retried' = byte-identical POST; failure kinds 4xx/5xx/reset/close.",
+        "technique": "TLA+ spec + TLC model checking (safety + liveness); spec->impl replay; independent XML oracle; impl->spec trace validation",
+        "design_ref": "DESIGN.md §3 Telemetry.tla",
+    },
     "C06": {
         "text": "Ebpf.tla models the two kernel hook points (cgroup/connect4, kprobe tcp_connect) as separately "
                 "interleavable steps of arbitrary threads over the four maps; TLC checks RedirectExactly, RecordTruth, "
